@@ -77,6 +77,10 @@ def gen_program(rng):
             L.append("\trept %d\n\t%s %d\n\tendm" % (rng.randint(1, 4), db, rng.below(256)))
         else:
             L.append("\t%s \"txt%d\"" % (db, i))
+    if rng.chance(0.25):
+        # many (flat) includes of a tiny file: per-pass include bookkeeping near the nesting limit of 200
+        for _ in range(rng.choice([1, 3, 60, 99, 101, 120, 199, 210])):
+            L.append("\tinclude \"blk.inc\"")
     for i in range(31):
         if not any(l.startswith("l%d:" % i) for l in L):
             L.append("l%d:" % i)
@@ -93,7 +97,7 @@ def base_case(rng, tests):
                 "mentions_clock": bool(re.search(rb"\b(date|time)\b", t.src, re.I)), "has_brace": b"\\{" in t.src or b"\\{" in b"".join(
                     v for k, v in local_disk(t, "/w/t").items())}
     src = gen_program(rng).encode()
-    return {"name": "gen", "flags": [], "disk": {"/w/t/gen.asm": src}, "golden": False, "mentions_clock": False, "has_brace": False}
+    return {"name": "gen", "flags": [], "disk": {"/w/t/gen.asm": src, "/w/t/blk.inc": b"\tnop\n"}, "golden": False, "mentions_clock": False, "has_brace": False}
 
 
 def make_scenario(b, rng, ref=False, force=None):
@@ -244,12 +248,15 @@ def check_program(sim, b, rng, k, acc):
     acc["runs"] += 1
     acc["sim_us"] += r0.sim_us
     cls = oracle.classify("asl", r0, san0)
-    if cls or r0.outcome != "exit:0" or r0.get(p0) is None:
-        if cls:
+    if cls:
+        if "/hang/" not in cls:
             vio.append(("C17/abnormal/" + cls, "reference run of %s: %s" % (b["name"], r0.outcome),
                         {"kind": "single", "scenario": scenario_to_json(sc0), "variant": variant}, r0.digest()))
         acc["stats"]["reference_not_ok"] = acc["stats"].get("reference_not_ok", 0) + 1
         return vio
+    if r0.outcome != "exit:0" or r0.get(p0) is None:
+        # a reference that produces no code file is still a reference: no perturbed run may produce one
+        acc["stats"]["reference_without_code"] = acc["stats"].get("reference_without_code", 0) + 1
     ref_p = r0.get(p0)
     for i in range(k):
         sc, dims, pth = make_scenario(b, rng)
@@ -274,7 +281,8 @@ def check_program(sim, b, rng, k, acc):
         if b["mentions_clock"] and "clock" in dims:
             acc["stats"]["skipped_clock_sensitive"] = acc["stats"].get("skipped_clock_sensitive", 0) + 1
         elif p != ref_p:
-            what = "missing (exit %s)" % r.outcome if p is None else "differs (%d vs %d bytes)" % (len(p), len(ref_p))
+            what = ("missing (exit %s)" % r.outcome if p is None else "exists (%d bytes) although the reference run produced none (%s)" % (len(p), r0.outcome)
+                    if ref_p is None else "differs (%d vs %d bytes)" % (len(p), len(ref_p)))
             vio.append(("C17/code-differs/" + "+".join(sorted(dims)) if len(dims) <= 2 else "C17/code-differs/multi",
                         "%s: code file %s under dims=%s" % (b["name"], what, dims), case, r.digest()))
         # (2) same scenario, other memory contents: every output byte equal
@@ -328,7 +336,7 @@ def run_case(sim, case):
             vs.append({"class": "C17/abnormal/" + cls, "detail": rb.outcome})
         elif case["rule"] == "code":
             pa, pb = ra.get(case["pa"]), rb.get(case["pb"])
-            if pa is not None and pa != pb:
+            if pa != pb:
                 dims = case.get("dims", [])
                 vs.append({"class": "C17/code-differs/" + "+".join(sorted(dims)) if len(dims) <= 2 else "C17/code-differs/multi",
                            "detail": "code file differs"})
@@ -354,7 +362,7 @@ def run_case(sim, case):
     else:
         for _ in range(case["n"]):
             src = gen_program(rng).encode()
-            b = {"name": "gen", "flags": [], "disk": {"/w/t/gen.asm": src}, "golden": False, "mentions_clock": False, "has_brace": False}
+            b = {"name": "gen", "flags": [], "disk": {"/w/t/gen.asm": src, "/w/t/blk.inc": b"\tnop\n"}, "golden": False, "mentions_clock": False, "has_brace": False}
             vio += check_program(sim, b, rng, case["k"], acc)
         sample = {"generated_program": src.decode()[:400]}
     seen = set()
